@@ -5,7 +5,7 @@
    structure, the reversal tick, the quadratic solve with both ceilings and the discarding of roots, statement by statement, with
    mpmath read as exact arithmetic) returns the specified answer for every request in the property's domain, for all integers; the
    implementation is compared with that model on every generated case. *)
-From Plotink Require Import Base.Prelude Spec.Firmware Spec.LmSpec Spec.LmCheck Model.LmModel Proofs.LmProofs Proofs.LmModelProofs.
+From Plotink Require Import Base.Prelude Spec.Firmware Spec.LmSpec Spec.LmCheck Model.EbbCalc Model.EbbCalcRnd Model.LmModel Model.LmModelRnd Proofs.LmProofs Proofs.LmModelProofs Proofs.LmRootRnd.
 Open Scope Z_scope.
 
 Theorem C03_checker_iff_spec : forall steps rate accel accum T p c,
@@ -27,6 +27,51 @@ Example C03_model_nonvacuous :
   lm_model 26 110000000 40000000 None = (51, 26, 1795425152) /\ lm_domain 26 110000000 40000000 None 51 = true /\
   lm_model (-5) 1000000000 0 None = (11, -5, 1884901887) /\ lm_domain (-5) 1000000000 0 None 11 = true.
 Proof. vm_compute. repeat split; reflexivity. Qed.
+
+(* rounding layer: calculate_lm with mpmath's rounding made explicit at the square root, the sums -b +- sqrt, the divisions by 2a and
+   the division of the constant-rate case (Model/LmModelRnd.v) equals the exact model for every request within the firmware's
+   argument ranges - for every rounding operator rnd that is monotone and fixes 103-bit numbers, and every rounded square root sq
+   that is non-negative, monotone and exact on squares of binary fractions with at most 52 fractional bits: mpmath's 30-digit
+   arithmetic is exact where C03_model_correct reads it as exact *)
+Theorem C03_rounding : forall rnd : Q -> Q,
+  (forall x y, (x == y)%Q -> (rnd x == rnd y)%Q) -> (forall x, rep103 x -> (rnd x == x)%Q) -> (forall x y, (x <= y)%Q -> (rnd x <= rnd y)%Q) ->
+  forall sq : Q -> Q,
+  (forall x, (0 <= x)%Q -> (0 <= sq x)%Q) ->
+  (forall K n, 0 <= K < 2 ^ 103 -> 0 <= n <= 52 -> (sq ((iz K / iz (2 ^ n)) * (iz K / iz (2 ^ n))) == iz K / iz (2 ^ n))%Q) ->
+  (forall x y, (0 <= x)%Q -> (x <= y)%Q -> (sq x <= sq y)%Q) ->
+  forall steps rate accel accum, Z.abs steps <= 2 ^ 31 -> Z.abs rate <= 2 ^ 31 -> Z.abs accel <= 2 ^ 31 ->
+  match accum with None => True | Some c => 0 <= c < 2 ^ 31 end ->
+  lm_model_r rnd sq steps rate accel accum = lm_model steps rate accel accum.
+Proof. exact lm_model_rounding. Qed.
+
+(* each root separately, for the discriminants that occur: D4 = 4 * discriminant up to 2^98 *)
+Theorem C03_root_rounding : forall rnd : Q -> Q,
+  (forall x y, (x == y)%Q -> (rnd x == rnd y)%Q) -> (forall x, rep103 x -> (rnd x == x)%Q) -> (forall x y, (x <= y)%Q -> (rnd x <= rnd y)%Q) ->
+  forall sq : Q -> Q,
+  (forall x, (0 <= x)%Q -> (0 <= sq x)%Q) ->
+  (forall K n, 0 <= K < 2 ^ 103 -> 0 <= n <= 52 -> (sq ((iz K / iz (2 ^ n)) * (iz K / iz (2 ^ n))) == iz K / iz (2 ^ n))%Q) ->
+  (forall x y, (0 <= x)%Q -> (x <= y)%Q -> (sq x <= sq y)%Q) ->
+  forall sg b2 accel D4, accel <> 0 -> Z.abs accel <= 2 ^ 32 -> Z.abs b2 <= 2 ^ 34 -> 0 <= D4 <= 2 ^ 98 ->
+  lm_root_r rnd sq sg b2 accel D4 = ceil_root sg (- b2) (2 * accel) D4.
+Proof. exact root_rounding. Qed.
+
+(* the hypotheses are satisfiable: the exact operator and the integer square root at the scale 2^-52 meet all six, and with them the
+   rounded model computes the answers of the three requests above (a reversing move whose roots are irrational, an accelerating move,
+   a constant-rate legacy request) *)
+Example C03_rounding_nonvacuous :
+  let rnd := fun x : Q => x in
+  (forall x y, (x == y)%Q -> (rnd x == rnd y)%Q) /\ (forall x, rep103 x -> (rnd x == x)%Q) /\ (forall x y, (x <= y)%Q -> (rnd x <= rnd y)%Q) /\
+  (forall x, (0 <= x)%Q -> (0 <= sq_floor x)%Q) /\
+  (forall K n, 0 <= K < 2 ^ 103 -> 0 <= n <= 52 -> (sq_floor ((iz K / iz (2 ^ n)) * (iz K / iz (2 ^ n))) == iz K / iz (2 ^ n))%Q) /\
+  (forall x y, (0 <= x)%Q -> (x <= y)%Q -> (sq_floor x <= sq_floor y)%Q) /\
+  lm_model_r rnd sq_floor 1 9 (-1) (Some 0) = (18, -1, 2147483639) /\
+  lm_model_r rnd sq_floor 26 110000000 40000000 None = (51, 26, 1795425152) /\
+  lm_model_r rnd sq_floor (-5) 1000000000 0 None = (11, -5, 1884901887).
+Proof.
+  cbv zeta. split; [intros x y E; exact E|]. split; [intros x _; reflexivity|]. split; [intros x y L; exact L|].
+  split; [exact sq_floor_nonneg|]. split; [exact sq_floor_exact|]. split; [exact sq_floor_mono|].
+  repeat split; vm_compute; reflexivity.
+Qed.
 
 (* the number of steps taken through tick n, in closed form (one sign change of the rate at most), for every n *)
 Theorem C03_steps_closed_form : forall r0 a acc n, lm_steps r0 a acc n = csteps r0 a acc (Z.of_nat n).
@@ -52,6 +97,8 @@ Proof. vm_compute. repeat split; reflexivity. Qed.
 Print Assumptions C03_checker_iff_spec.
 Print Assumptions C03_model_correct.
 Print Assumptions C03_model_meets_spec.
+Print Assumptions C03_rounding.
+Print Assumptions C03_root_rounding.
 Print Assumptions C03_steps_closed_form.
 Print Assumptions C03_consequence.
 Print Assumptions C03_invalid.
